@@ -23,7 +23,7 @@ ISAS = ["sse2", "avx2", "avx512"]
 REG_TYPES = {"__m128", "__m128d", "__m128i", "__m256", "__m256d", "__m256i", "__m512", "__m512d", "__m512i"}
 SCALAR_TYPES = {"int": "i32", "int32_t": "i32", "int64_t": "i64", "Int64": "i64", "long long": "i64", "float": "f32", "double": "f64",
                 "uint64_t": "i64", "uint32_t": "i32", "int32_lane_t": "i32", "int64_lane_t": "i64"}
-LEAN_TY = {"bool": "Bool", "R": "Reg", "i32": "BitVec 32", "f32": "BitVec 32", "i64": "BitVec 64", "f64": "BitVec 64", "C": "Reg × Reg", "P32": "Reg", "P64": "Reg"}
+LEAN_TY = {"mask": "Nat", "bool": "Bool", "R": "Reg", "i32": "BitVec 32", "f32": "BitVec 32", "i64": "BitVec 64", "f64": "BitVec 64", "C": "Reg × Reg", "P32": "Reg", "P64": "Reg"}
 TNAME = {"int32_t": "int32", "int": "int32", "int64_t": "int64", "Int64": "int64", "float": "float", "double": "double",
          "std::complex<float>": "cfloat", "std::complex<double>": "cdouble"}
 def is_cplx(T): return T.startswith("std::complex")
@@ -69,6 +69,7 @@ def _tab():
     add("permute2f128_ps permute2f128_pd permute2f128_si256 permute2x128_si256", "permute2f128", "RRI", "R")
     add("permute4x64_pd permute4x64_epi64", "permute4x64", "RI", "R")
     add("permutexvar_epi32 permutexvar_ps", "permutexvar32", "RR", "R"); add("permutexvar_epi64 permutexvar_pd", "permutexvar64", "RR", "R")
+    add("permutex2var_ps permutex2var_epi32", "permutex2var32", "RRR", "R"); add("permutex2var_pd permutex2var_epi64", "permutex2var64", "RRR", "R")
     add("hadd_ps", "hadd_ps", "RR", "R", True); add("hadd_pd", "hadd_pd", "RR", "R", True)
     for op in "add sub mul div min max".split():
         add(op + "_ps", op + "_ps", "RR", "R", True); add(op + "_pd", op + "_pd", "RR", "R", True)
@@ -222,6 +223,10 @@ class Parser:
             raise Untranslatable("unary minus on %s" % v.kind)
         if tk == ("p", "+"):
             self.eat(); return self.unary()
+        if tk == ("p", "!"):
+            self.eat(); v = self.unary()
+            if v.kind != "bool": raise Untranslatable("! on %s" % v.kind)
+            return Val("bool", "(!%s)" % v.text, fo=v.fo)
         if tk == ("p", "&"):
             self.eat(); v = self.postfix()
             if v.kind in ("R", "V") and re.match(r"^[A-Za-z_]\w*$", v.text): return Val("ADDR", v.text)
@@ -404,9 +409,10 @@ class Parser:
             return Val("R", "(maskload%s (loadw %s %d) %s)" % ("64" if w64 else "32", a[0].text[0], a[0].text[1], self.coerce(a[1], "R").text), fo=fo)
         mm_ = re.match(r"^mask_loadu?_(ps|pd|epi32|epi64)$", base)
         if mm_:
-            if len(a) != 3 or a[2].kind not in ("P32", "P64") or a[1].kind != "imm": raise Untranslatable("mask_load with a non-constant mask")
+            if len(a) != 3 or a[2].kind not in ("P32", "P64") or a[1].kind not in ("imm", "mask"): raise Untranslatable("mask_load with a mask that is neither a constant nor a mask parameter")
             w64 = mm_.group(1) in ("pd", "epi64")
-            return Val("R", "(kload%s %s %d (loadw %s %d))" % ("64" if w64 else "32", self.coerce(a[0], "R").text, a[1].const, a[2].text[0], a[2].text[1]), fo=fo)
+            ktxt = str(a[1].const) if a[1].kind == "imm" else a[1].text
+            return Val("R", "(kload%s %s %s (loadw %s %d))" % ("64" if w64 else "32", self.coerce(a[0], "R").text, ktxt, a[2].text[0], a[2].text[1]), fo=fo)
         if base in ("load_ss", "load_sd"):
             if len(a) != 1 or a[0].kind not in ("P32", "P64"): raise Untranslatable("load from a non-pointer")
             return Val("R", "(loadw_%s %s %d)" % (base[-2:], a[0].text[0], a[0].text[1]), fo=fo)
@@ -502,9 +508,13 @@ def parse_type(t, cls=None):
     t = re.sub(r"^const\s+", "", t).strip()
     if t in REG_TYPES: return "R", t
     if t in SCALAR_TYPES: return SCALAR_TYPES[t], None
+    if t == "bool": return "bool", None
+    if t in ("uint8_t", "uint16_t", "__mmask8", "__mmask16"): return "mask", None
     mp = re.match(r"^(float|double|int32_t|int64_t|int|uint64_t|uint32_t|int32_lane_t|int64_lane_t)\s*\*\s*(?:__restrict__|__restrict)?$", t)
     if mp: return ("P64" if mp.group(1) in ("double", "int64_t", "uint64_t", "int64_lane_t") else "P32"), mp.group(1)
     if cls is not None:
+        mq = re.match(r"^scalar_value_type\s*\*$", t)
+        if mq and cls[0] in SCALAR_TYPES: return ("P64" if cls[0] in ("double", "int64_t", "Int64") else "P32"), cls[0]
         if t == "vector_type": return ("C" if is_cplx(cls[0]) else "V"), cls
         if t == "value_type": return "R", reg_ctype(*cls)
         if t == "scalar_value_type" and cls[0] in SCALAR_TYPES: return SCALAR_TYPES[cls[0]], None
@@ -574,7 +584,7 @@ def split_statements(body):
     return [s.strip() for s in body.split(";") if s.strip()]
 
 def kletter(k):
-    return {"V": "v", "C": "v", "R": "r"}.get(k, "s")
+    return {"V": "v", "C": "v", "R": "r", "bool": "b", "mask": "m", "P32": "p", "P64": "p"}.get(k, "s")
 
 def translate_function(f, funcs):
     """-> (lean_name, lean_text, meta) or raises Untranslatable"""
@@ -624,7 +634,7 @@ def translate_function(f, funcs):
         lean = name.lstrip("_") if name.startswith("_mm") else "h_" + re.sub(r"\W+", "_", name.lstrip("_")).strip("_")
     # result kind
     void_ret = f["ret"].strip() == "void"
-    void_inplace = void_ret and cls is not None
+    void_inplace = void_ret and cls is not None and not outs
     if is_ctor or void_inplace: ret_kind = "C" if cplx_cls else "R"
     elif void_ret and outs: ret_kind = "OUTS"
     elif retk == "V": ret_kind = "R"
@@ -657,32 +667,33 @@ def translate_function(f, funcs):
         N = lanes_of(cls or owner)
         if N: body = re.sub(r"\bout\.size\(\)|\bSize\b|\bsize\(\)", str(N), body)
         body = unroll(body)
+        body = re.sub(r"(if\s*\(\s*!?\s*\w+\s*\)\s*[^;{}]+);\s*else\s+", r"\1 @ELSE@ ", body)
         stmts = split_statements(body)
         env["@aliases"] = {}
-        for s in stmts:
-            if re.match(r"^unused\s*\(.*\)$", s): continue
+        def handle(s):
+            if re.match(r"^unused\s*\(.*\)$", s): return
             if result[0] is not None: raise Untranslatable("statement after return")
             m = re.match(r"^return\s+(.*)$", s, re.S)
             if m:
                 e = m.group(1).strip()
                 if e == "*this":
                     if not selfmod[0]: raise Untranslatable("return *this")
-                    result[0] = "(self_r, self_i)" if cplx_cls else "self"; continue
+                    result[0] = "(self_r, self_i)" if cplx_cls else "self"; return
                 v = ev(e, ret_kind if ret_kind != "OUTS" else None)
-                result[0] = pairtext(v) if v.kind == "C" else v.text; continue
+                result[0] = pairtext(v) if v.kind == "C" else v.text; return
             # local arrays  T a[n], b[n]
             m = re.match(r"^(?:alignas\s*\(\d+\)\s+|__attribute__\s*\(\(aligned\(\d+\)\)\)\s+)?(\w+)\s+(\w+\s*\[\d+\](?:\s*,\s*\w+\s*\[\d+\])*)$", s)
             if m and parse_type(m.group(1) + "*", cls)[0] in ("P32", "P64"):
                 k, info = parse_type(m.group(1) + "*", cls)
                 for d in m.group(2).split(","):
                     nm = re.match(r"\s*(\w+)", d).group(1); env[nm] = k; ctypes[nm] = info; lets.append((lname(nm), "junk"))
-                continue
+                return
             # pointer alias of a register  T *p = (T*)&reg
             m = re.match(r"^(?:const\s+)?(\w+)\s*\*\s*(\w+)\s*=\s*(.*)$", s, re.S)
             if m:
                 v = ev(m.group(3))
                 if v.kind in ("P32", "P64") and v.text[1] == 0:
-                    env["@aliases"][m.group(2)] = (v.kind, v.text[0], v.ctype); continue
+                    env["@aliases"][m.group(2)] = (v.kind, v.text[0], v.ctype); return
                 raise Untranslatable("statement %r" % s[:70])
             # conditional assignment  if (c) x = e
             m = re.match(r"^if\s*\((.*?)\)\s*([A-Za-z_]\w*)\s*=\s*(.*)$", s, re.S)
@@ -690,7 +701,7 @@ def translate_function(f, funcs):
                 c = ev(m.group(1))
                 if c.kind != "bool": raise Untranslatable("condition %r" % m.group(1)[:40])
                 e = ev(m.group(3), env[m.group(2)])
-                lets.append((lname(m.group(2)), "(if %s then %s else %s)" % (c.text, e.text, lname(m.group(2))))); continue
+                lets.append((lname(m.group(2)), "(if %s then %s else %s)" % (c.text, e.text, lname(m.group(2))))); return
             if s.startswith("if"): raise Untranslatable("statement %r" % s[:70])
             # array element (compound) assignment  a[k] op= e
             m = re.match(r"^(\w+)\s*\[\s*(\d+)\s*\]\s*(=|\+=|-=|\*=|/=)\s*(.*)$", s, re.S)
@@ -703,13 +714,13 @@ def translate_function(f, funcs):
                 if pv.kind == "P32": lets.append((tgt, "(storew %s %d 1 (set1_32 %s))" % (tgt, k, rhs.text)))
                 else: lets.append((tgt, "(storew %s %d 2 (set1_64 %s))" % (tgt, 2 * k, rhs.text)))
                 if tgt == "self": selfmod[0] = True
-                continue
+                return
             # scalar compound assignment  x op= e
             m = re.match(r"^([A-Za-z_]\w*)\s*(\+=|-=|\*=|/=)\s*(.*)$", s, re.S)
             if m and m.group(1) in env and env[m.group(1)] in ("i32", "i64", "f32", "f64"):
                 k = env[m.group(1)]; cur = Val(k, lname(m.group(1))); rhs = ev(m.group(3), k)
                 r = Parser([], env, funcs, cls, ctypes).binop(m.group(2)[0], cur, rhs); fo[0] = fo[0] or r.fo
-                lets.append((lname(m.group(1)), r.text)); continue
+                lets.append((lname(m.group(1)), r.text)); return
             # declarations with initialiser
             m = re.match(r"^(?:static\s+)?(?:const\s+)?(SIMDVector<[^=]*?>|[A-Za-z_][\w ]*?)\s+([A-Za-z_]\w*)\s*=\s*(.*)$", s, re.S)
             if m and parse_type(m.group(1), cls)[0]:
@@ -717,12 +728,12 @@ def translate_function(f, funcs):
                 env[m.group(2)] = k
                 if k == "R": ctypes[m.group(2)] = info
                 if k == "V": ctypes[m.group(2)] = reg_ctype(*info)
-                bind(m.group(2), v); continue
+                bind(m.group(2), v); return
             m = re.match(r"^(?:const\s+)?auto\s+([A-Za-z_]\w*)\s*=\s*(.*)$", s, re.S)
             if m:
                 v = ev(m.group(2)); k = "R" if v.kind == "V" else v.kind
                 if k not in LEAN_TY: raise Untranslatable("auto of kind %s" % k)
-                env[m.group(1)] = k; bind(m.group(1), v); continue
+                env[m.group(1)] = k; bind(m.group(1), v); return
             # declarations without initialiser (several declarators allowed): vectors start as zero, registers are undefined
             m = re.match(r"^(SIMDVector<[^=(]*?>|vector_type|__m\d+[di]?)\s+([A-Za-z_]\w*(?:\s*,\s*[A-Za-z_]\w*)*)$", s, re.S)
             if m and parse_type(m.group(1), cls)[0] in ("V", "C", "R"):
@@ -732,14 +743,14 @@ def translate_function(f, funcs):
                     if k == "C": lets.append((lname(nm) + "_r", "setzero")); lets.append((lname(nm) + "_i", "setzero"))
                     elif k == "V": ctypes[nm] = reg_ctype(*info); lets.append((lname(nm), "setzero"))
                     else: ctypes[nm] = info; lets.append((lname(nm), "junk"))
-                continue
+                return
             # copy construction  vector_type out(*this) / SIMDVector<..> out(expr)
             m = re.match(r"^(SIMDVector<[^=(]*?>|vector_type)\s+([A-Za-z_]\w*)\((.*)\)$", s, re.S)
             if m and parse_type(m.group(1), cls)[0] in ("V", "C"):
                 k, info = parse_type(m.group(1), cls); v = ev(m.group(3))
                 if k == "C" and v.kind != "C": raise Untranslatable("statement %r" % s[:70])
                 if k == "V": v = Parser([], env, funcs, cls, ctypes).coerce(v, "R"); ctypes[m.group(2)] = reg_ctype(*info)
-                env[m.group(2)] = k; bind(m.group(2), v); continue
+                env[m.group(2)] = k; bind(m.group(2), v); return
             # store through a pointer:  _mm_storeu_ps(p + k, e)
             m = re.match(r"^_mm(256|512)?_storeu?_(ps|pd|si128|si256|si512)\s*\((.*)\)$", s, re.S)
             if m:
@@ -748,7 +759,7 @@ def translate_function(f, funcs):
                 pv = ev(aa[0]); rv = ev(aa[1], "R")
                 if pv.kind not in ("P32", "P64"): raise Untranslatable("store through a non-pointer")
                 W = {None: 4, "256": 8, "512": 16}[m.group(1)]
-                lets.append((pv.text[0], "(storew %s %d %d %s)" % (pv.text[0], pv.text[1], W, rv.text))); continue
+                lets.append((pv.text[0], "(storew %s %d %d %s)" % (pv.text[0], pv.text[1], W, rv.text))); return
             m = re.match(r"^_mm(256|512)?_maskstore_(ps|pd|epi32|epi64)\s*\((.*)\)$", s, re.S)
             if m:
                 aa = split_args(m.group(3))
@@ -756,15 +767,16 @@ def translate_function(f, funcs):
                 pv = ev(aa[0]); mk = ev(aa[1], "R"); rv = ev(aa[2], "R")
                 if pv.kind not in ("P32", "P64"): raise Untranslatable("store through a non-pointer")
                 W = {None: 4, "256": 8, "512": 16}[m.group(1)]
-                lets.append((pv.text[0], "(maskstore%s %s %d %d %s %s)" % ("64" if m.group(2) in ("pd", "epi64") else "32", pv.text[0], pv.text[1], W, mk.text, rv.text))); continue
+                lets.append((pv.text[0], "(maskstore%s %s %d %d %s %s)" % ("64" if m.group(2) in ("pd", "epi64") else "32", pv.text[0], pv.text[1], W, mk.text, rv.text))); return
             m = re.match(r"^_mm(256|512)?_mask_storeu?_(ps|pd|epi32|epi64)\s*\((.*)\)$", s, re.S)
             if m:
                 aa = split_args(m.group(3))
                 if len(aa) != 3: raise Untranslatable("mask_store arity")
                 pv = ev(aa[0]); kv_ = ev(aa[1]); rv = ev(aa[2], "R")
-                if pv.kind not in ("P32", "P64") or kv_.kind != "imm": raise Untranslatable("mask_store with a non-constant mask")
+                if pv.kind not in ("P32", "P64") or kv_.kind not in ("imm", "mask"): raise Untranslatable("mask_store with a mask that is neither a constant nor a mask parameter")
                 W = {None: 4, "256": 8, "512": 16}[m.group(1)]
-                lets.append((pv.text[0], "(kstore%s %s %d %d %d %s)" % ("64" if m.group(2) in ("pd", "epi64") else "32", pv.text[0], pv.text[1], W, kv_.const, rv.text))); continue
+                ktxt = str(kv_.const) if kv_.kind == "imm" else kv_.text
+                lets.append((pv.text[0], "(kstore%s %s %d %d %s %s)" % ("64" if m.group(2) in ("pd", "epi64") else "32", pv.text[0], pv.text[1], W, ktxt, rv.text))); return
             # call statement of a helper with reference (in-out) parameters
             m = re.match(r"^([A-Za-z_]\w*)\s*\((.*)\)$", s, re.S)
             if m and m.group(1) in funcs:
@@ -789,7 +801,7 @@ def translate_function(f, funcs):
                         lets.append((nm_, comp if off_ == 0 else "(fun w => if %d ≤ w then %s (w - %d) else %s w)" % (off_, comp, off_, nm_)))
                     elif not assign(target, Val("R", comp), env, lets, cls, cplx_cls, selfmod):
                         raise Untranslatable("reference argument %r" % target[:30])
-                continue
+                return
             m = re.match(r"^([A-Za-z_]\w*)(\.value|\.value_r|\.value_i)?\s*=\s*(.*)$", s, re.S)
             if m:
                 nm, mem = m.group(1), m.group(2)
@@ -797,8 +809,19 @@ def translate_function(f, funcs):
                 kexp = None
                 if nm in env and not mem: kexp = env[nm] if env[nm] != "V" else "R"
                 v = ev(m.group(3), kexp if kexp in ("i32", "i64", "f32", "f64") else None)
-                if assign(tgt, v, env, lets, cls, cplx_cls, selfmod): continue
+                if assign(tgt, v, env, lets, cls, cplx_cls, selfmod): return
             raise Untranslatable("statement %r" % s[:70])
+        for s in stmts:
+            mi = re.match(r"^if\s*\((!?\s*\w+)\)\s*(.*?)\s*@ELSE@\s*(.*)$", s, re.S)
+            if mi:
+                c = ev(mi.group(1))
+                if c.kind != "bool": raise Untranslatable("condition %r" % mi.group(1))
+                n0 = len(lets); handle(mi.group(2)); l1 = lets[n0:]; del lets[n0:]
+                handle(mi.group(3)); l2 = lets[n0:]; del lets[n0:]
+                if len(l1) != 1 or len(l2) != 1 or l1[0][0] != l2[0][0] or result[0] is not None: raise Untranslatable("if / else branches are not two assignments (stores) to the same target")
+                lets.append((l1[0][0], l1[0][1] if l1[0][1] == l2[0][1] else "(if %s then %s else %s)" % (c.text, l1[0][1], l2[0][1])))
+            else:
+                handle(s)
         if result[0] is None:
             if void_inplace and selfmod[0]: result[0] = "(self_r, self_i)" if cplx_cls else "self"
             elif ret_kind == "OUTS" and len(outs) > 2:
@@ -896,7 +919,14 @@ def regenerate(isas=ISAS, repo=None, log=None):
     os.makedirs(GEN_DIR, exist_ok=True)
     reports = {}
     for isa in isas:
-        txt, rep = translate(isa, repo)
+        try:
+            txt, rep = translate(isa, repo)
+        except Exception as e:
+            # e.g. the headers do not preprocess: keep the previous file, never take a check down
+            reports[isa] = {"isa": isa, "translated": [], "untranslated": [], "metas": [], "changed": False, "error": "%s: %s" % (type(e).__name__, str(e)[:400]),
+                            "path": os.path.join(GEN_DIR, "Simd_%s.lean" % isa)}
+            if log is not None: log.append("xlate %s: FAILED (%s), previous file kept" % (isa, reports[isa]["error"][:120]))
+            continue
         p = os.path.join(GEN_DIR, "Simd_%s.lean" % isa)
         old = open(p).read() if os.path.exists(p) else None
         rep["changed"] = (old != txt)
